@@ -21,9 +21,16 @@ def parseEv (t : String) : Option Ev :=
 def parseCoap (t : String) : Option CoapEv :=
   if t = "q" then some .request else (parseCt t).map CoapEv.response
 
+def parseSEv (t : String) : Option SEv :=
+  if t = "K" then some .rekey else (parseEv t).map SEv.ev
+
+def showS (l : List (Nat × Obs)) : String :=
+  if l.isEmpty then "-" else " ".intercalate (l.map fun (k, o) => s!"{k}:{showObs o}")
+
 def handle : List String → Option String
   | "ctr.ipble" :: toks => (toks.mapM parseEv).map fun evs => showAll (run {} evs)
   | "ctr.coap" :: toks => (toks.mapM parseCoap).map fun evs => showAll (coapRun {} evs)
+  | "ctr.sess" :: toks => (toks.mapM parseSEv).map fun evs => showS (srun {} evs)
   | "ctr.event" :: toks => (toks.mapM parseCt).map fun cts => showAll (eventRun 0 cts)
   | _ => none
 
